@@ -327,7 +327,7 @@ def check_cipher(ck, mod, f, label, rulemap):
             inits = {I.id: p.env.get(("init", I.id)) for I in ptrs + ints}
             want_n = Lf.s(A["mlen"]) if enc else Lf({A["clen"]: 1, 1: -8})
             ini_n = inits[ints[0].id]
-            if not is_word(ini_n) and any(isinstance(s_, tuple) and s_[0] in ("quo", "rem", "trunc") for s_ in ini_n):
+            if not is_word(ini_n) and any(isinstance(s_, tuple) and s_[0] in ("quo", "rem", "trunc", "mod") for s_ in ini_n):
                 raise Broken("%s: the data loop counts blocks with a derived counter (%s) instead of the remaining length: loop shape not supported by the lock-step rule" % (f.name, ini_n))
             okc = set(repr(inits[I.id]) for I in ptrs) == {repr(Lf.s(A["m"])), repr(Lf.s(A["c"]))} and inits[ints[0].id] == want_n
             c.ob(okc, "ADVANCE", "cursor-init", "cursors start at m and c, remaining length at %s" % want_n,
